@@ -161,6 +161,13 @@ func (b *Backends) backendShardChanged(shard int) {
 	b.changedShards[shard] = true
 }
 
+// ChangedAllShards ...
+func (b *Backends) ChangedAllShards() {
+	for i := range b.shards {
+		b.changedShards[i] = true
+	}
+}
+
 // ChangedShards ...
 func (b *Backends) ChangedShards() []int {
 	changed := []int{}
